@@ -362,6 +362,22 @@ def gamut_vertices(sysd, relative):
     return Q, A, lb, (ub if bounded else None)
 
 
+LP_INCONCLUSIVE = [0]
+
+
+def _linprog(c, **kw):
+    """HiGHS now and then ends with 'model status unknown' (status 4) on a perfectly feasible
+    little LP (soak, VERIF_SEED=526): try the other HiGHS algorithms before giving up; a
+    membership question the oracle itself cannot answer is inconclusive, never a violation."""
+    from scipy.optimize import linprog
+    for method in ("highs", "highs-ipm", "highs-ds"):
+        r = linprog(c, method=method, **kw)
+        if r.status in (0, 2, 3):          # solved / infeasible / unbounded: an answer
+            return r
+    LP_INCONCLUSIVE[0] += 1
+    return None
+
+
 def lp_in_gamut(s, sysd, relative, A, lb, ub):
     """exists lb <= x <= ub with K(Ax + baseline) = s ?  (HiGHS, feasibility only)"""
     from scipy.optimize import linprog
@@ -386,7 +402,9 @@ def lp_in_gamut(s, sysd, relative, A, lb, ub):
     Aub = np.block([[Aeq, -np.ones((A.shape[0], 1))], [-Aeq, -np.ones((A.shape[0], 1))]])
     bub = np.r_[beq, -beq]
     bounds = [(lb[i], None if ub is None else ub[i]) for i in range(n)] + [(0, None)]
-    r = linprog(c, A_ub=Aub, b_ub=bub, bounds=bounds, method="highs")
+    r = _linprog(c, A_ub=Aub, b_ub=bub, bounds=bounds)
+    if r is None:
+        return True, float("nan")
     return bool(r.status == 0 and r.fun <= tol), (float(r.fun) if r.status == 0 else np.inf)
 
 
@@ -399,8 +417,10 @@ def lp_in_hull(s, Pm):
     d = Pm.shape[1]
     Aub = np.block([[Pm.T, -np.ones((d, 1))], [-Pm.T, -np.ones((d, 1))]])
     bub = np.r_[s, -s]
-    r = linprog(c, A_ub=Aub, b_ub=bub, A_eq=Aeq, b_eq=[1.0],
-                bounds=[(0, None)] * m + [(0, None)], method="highs")
+    r = _linprog(c, A_ub=Aub, b_ub=bub, A_eq=Aeq, b_eq=[1.0],
+                 bounds=[(0, None)] * m + [(0, None)])
+    if r is None:
+        return True, float("nan")
     return bool(r.status == 0 and r.fun <= 1e-7 * scale), (float(r.fun) if r.status == 0
                                                            else np.inf)
 
@@ -514,6 +534,7 @@ def execute(plan):
                                        baseline=sysd["baseline"])
         est.register_system(sysd["S"], lb=sysd["lb"], ub=sysd["ub"])
     zmax = [0.0]
+    LP_INCONCLUSIVE[0] = 0
     pristine_left = [3]
     results = {}       # op index -> (canonical bytes, array)
     violation = None
@@ -802,6 +823,8 @@ def execute(plan):
             bump("sampling_calls")
     except Violation as v:
         violation = v.as_dict()
+    if LP_INCONCLUSIVE[0]:
+        bump("oracle_lp_inconclusive", LP_INCONCLUSIVE[0])
     return {"violation": violation, "digest": log.digest(), "steps": steps, "counters": counters,
             "cov": cov, "nontrivial": nontrivial, "zmax": zmax[0]}
 
